@@ -104,7 +104,7 @@ def cases(tier, seed):
     for k in KINDS:
         for sn in split_names(k):
             out.append(f"{k}/curve/{sn}")
-    out += ["hdd_tidd_cdd_smooth/bounds/x", "hdd_tidd_cdd/bounds/x", "tidd/uncertainty/x"]
+    out += ["hdd_tidd_cdd_smooth/bounds/x", "hdd_tidd_cdd/bounds/x", "tidd/uncertainty/x", "tidd/limits/5", "tidd/limits/6"]
     return out
 
 
@@ -465,12 +465,83 @@ def run_unc(case):
 REPLAY["unc"] = replay_unc
 
 
+# ----------------------------------------------------------------- recorded temperature limits
+
+def _limits_result(T, seg, intercept, real):
+    """the real OptimizedResult.__init__ on a flat (tidd) outcome; only the uncertainty step (acf / scipy) is a stub"""
+    import types as _t
+    import opendsm.eemeter.models.daily.utilities.base_model as bm
+    n = len(T)
+    settings = _t.SimpleNamespace(segment_minimum_count=seg, uncertainty_alpha=0.1)
+    x = np.array([float(intercept)]) if real else symarr([intercept])
+    model = np.full(n, float(intercept)) if real else symarr([intercept] * n)
+    resid = np.zeros(n)
+    def _pu(self):
+        self.DoF, self.f_unc = 1, 0.0
+    with patched(orr.OptimizedResult, _prediction_uncertainty=_pu):
+        if real:
+            return orr.OptimizedResult(x, [[0.0, 1.0]], ["intercept"], 2.0, 1.0, T, model, np.ones(n), resid, None, 0.0, 1.0, True, "ok", 1, 0.0, settings)
+        with symbolic_fit(), patched(bm, np=symnp), patched(orr, np=symnp):
+            return orr.OptimizedResult(x, [[0.0, 1.0]], ["intercept"], 2.0, 1.0, T, model, np.ones(n), resid, None, 0.0, 1.0, True, "ok", 1, 0.0, settings)
+
+
+def _rank_claim(v, Ts, k):
+    """v is the element of rank k (0-based) of the multiset Ts"""
+    lt = sum((z3.If(t < v, 1, 0) for t in Ts), z3.IntVal(0))
+    le = sum((z3.If(t <= v, 1, 0) for t in Ts), z3.IntVal(0))
+    return z3.And(z3.Or(*[v == t for t in Ts]), lt <= k, le >= k + 1)
+
+
+def replay_limits(inp):
+    env, seg, n = inp["env"], inp["seg"], inp["n"]
+    T = np.array([float(env[f"t{i}"]) for i in range(n)])
+    res = _limits_result(T, seg, float(env["c"]), True)
+    s = np.sort(T)
+    want = dict(T_min=s[0], T_max=s[-1], T_min_seg=s[seg], T_max_seg=s[n - seg])
+    got = {k: float(getattr(res, k)) for k in want}
+    return got != {k: float(v) for k, v in want.items()}, f"recorded limits {got}, the fitted days give {want} (temperatures {T.tolist()}, segment_minimum_count={seg})"
+
+
+REPLAY["limits"] = replay_limits
+
+
+def run_limits(case, n):
+    """the temperature limits an OptimizedResult records are order statistics of the days it was fitted on:
+    T_min/T_max the extremes, T_min_seg/T_max_seg the values segment_minimum_count days in from each end"""
+    from . import dailyframe as F
+    Ts = [Z(f"t{i}") for i in range(n)]
+    case.inputs = Ts + [Z("c")]
+
+    def run():
+        seg = F.choose("seg", [1, 2] if n < 6 else [1, 2, 3])
+        res = _limits_result(symarr([SReal(t) for t in Ts]), seg, SReal(Z("c")), False)
+        return seg, {k: getattr(res, k) for k in TC}, res.N, res.obs
+
+    paths = case.explore(run)
+    for p in paths:
+        if p.outcome != "ret":
+            case.rep["harness_errors"].append(f"OptimizedResult.__init__ raised {p.value!r}")
+            continue
+        seg, got, N, obs = p.value
+        rp = ("limits", (lambda sg: lambda mdl: dict(seg=sg, n=n, env=model_env(mdl, case.inputs)))(seg))
+        case.twin(p)
+        g = {k: to_real(lift(v)) for k, v in got.items()}
+        case.prove(p, z3.And(_rank_claim(g["T_min"], Ts, 0), _rank_claim(g["T_max"], Ts, n - 1)), "recorded T_min/T_max are the coldest and hottest fitted day", replay=rp)
+        case.prove(p, z3.And(_rank_claim(g["T_min_seg"], Ts, seg), _rank_claim(g["T_max_seg"], Ts, n - seg)),
+                   "recorded segment limits are the temperatures segment_minimum_count days in from each end of the fitted days", replay=rp)
+        case.prove(p, z3.BoolVal(int(N) == n), "recorded N is the number of fitted days", replay=rp)
+        case.regime("segment limits taken two or more days in", seg >= 2)
+    case.sample(dict(function="OptimizedResult.__init__ / get_T_bnds", days=n, paths=len(paths)))
+
+
 def run_case(case: Case, name: str):
     kind, mode, split = name.split("/")
     if mode == "bounds":
         return run_bounds(case, kind.endswith("smooth"))
     if mode == "uncertainty":
         return run_unc(case)
+    if mode == "limits":
+        return run_limits(case, int(split))
     V = raw_vars(kind)
     case.inputs = list(V.values())
     sa = split_assumptions(kind, V, split)
